@@ -81,6 +81,11 @@ declare -A DEMO=(
  [C13d_cmdsubst_waits_before_reading]="-p yash-semantics --test c13d_command_subst_long_output"
  [C14d_heredoc_dash_counts_all_tabs]="-p yash-semantics --test c14d_here_doc_tabs"
  [C15d_receiver_keeps_first_waker]="-p yash-executor --test c15d_receiver_handover"
+ [C16d_unset_local_only]="-p yash-builtin --test c16d_unset_hidden_variable"
+ [C17d_alias_in_noncommand_words]="-p yash-syntax --test c17d_alias_compound_headers"
+ [C18d_undo_redirs_oldest_first]="-p yash-semantics c18d"
+ [C19d_fork_inherits_pending_signals]="-p yash-builtin --test c19d_fork_pending_signals"
+ [C20d_set_option_name_nonascii]="-p yash-builtin --test c20d_set_option_name_spelling"
  [C16c_readonly_local_in_function]="-p yash-builtin --test c16c_readonly_in_function"
  [C20c_kill_attached_sig_prefix]="-p yash-builtin --test c20c_kill_attached_signal"
 )
